@@ -187,3 +187,12 @@ reg('C23', engine='pysym',
     note='Trusted: pysym/SymStr proxies, the POSIX file-system model (atomic rename that does not fail). Determinism '
          'of the generated text across hash seeds is NOT covered; the text generator is stubbed.',
     technique='symbolic execution of the real Python function via proxies over a model file system with symbolic crash index, SMT (z3)')
+
+reg('C24', engine='pysym',
+    text='The real read_sources/exec_python/generate_c_source/write_c_source/find_ffi_in_python_script run on symbolic '
+         'Unicode texts (cdef, prelude, module name, generated text, output argument, --ffi-var) with FFI replaced by '
+         'a recorder: the FFI receives exactly the inputs, exactly the emit_c_code text is written once to stdout iff '
+         'the output is "-", else to a file opened with encoding utf-8; name/type errors are the documented ones.',
+    note='Trusted: pysym/SymStr proxies; emit_c_code is uninterpreted (a fresh symbolic text); argparse, real files '
+         'and encodings are not covered.',
+    technique='symbolic execution of the real Python functions via proxy strings, SMT (z3)')
